@@ -71,7 +71,10 @@ def gen(rng, count, sizes, nmaxs):
             box = [f32(-6.0), f32(6.0), f32(rng.choice([-12.0, -9.0, -4.0])), f32(rng.choice([12.0, 7.5, 4.0]))]
         recs.append(dict(id=cid, n=n, nb=nb, nmax=nmax, spacing=spacing, buckets=buckets, z=z, profs=profs, a=a, d=d, box=box,
                          optext=E.efcase(cid, n, nb, nmax, spacing, buckets, z, profs,
-                                         ["P0", "w", "P1", "w", "P2", "w", "P3", "w", "P4", "w"], box=box)))
+                                         ["P0", "w", "P1", "w", "P2", "w", "P3", "w", "P4", "w",
+                                          # the wake kick map built on this field: its displacements must be the wake
+                                          # potentials of every bunch and it must act as the y-kick map of those
+                                          "P%d" % rng.randrange(3), "k%d" % rng.choice([1, 2, 3, 4])], box=box)))
     return recs
 
 
@@ -89,6 +92,13 @@ def oracle(rec, A):
         return "wake scaling %g, expected Ib*dt*c/(sigma_z*dE_cell)/N = %g" % (scale, want_scale)
     wakes = []
     wpads = []
+    for op, d in ops:
+        if op.startswith("k"):
+            ints = [int(x) for x in d.get("ints", [])]
+            if len(ints) != 5 or ints[:3] != [0, 0, 0] or ints[3] != rec["nb"] * n or ints[4] != int(op[1:]):
+                return ("WakePotentialMap is not the y-kick map of the wake potentials of its field: differing offsets / table "
+                        "entries / output cells = %r (rows, interpolation points = %r)" % (ints[:3], ints[3:]))
+    ops = [(op, d) for op, d in ops if op == "w"]
     for i, (op, d) in enumerate(ops):
         w = np.array([h2f(x) for x in d["wake"]])
         wp = np.array([h2f(x) for x in d["wpad"]])
